@@ -58,6 +58,14 @@ def check(ctx, pcirc, order, link_order, assigns, replay, setp=None):
             a, p, b, q = pcirc["links"][k]
             sol.connect(sts[a], p, sts[b], q)
         sol.maps_all_pins()
+        # the same internal pin exposed under a second name (an alias): the sub-circuit that owns it must answer for both
+        aliases = []
+        exposed = sorted(((n_.name, sid_) for n_, sid_ in ((n_, [k for k, s_ in enumerate(sts) if s_ is t[0]][0]) for n_, t in sol.pin_mapping.items())), key=str)
+        if exposed and (len(pcirc["links"]) + len(order)) % 2 == 0:
+            nm0, c0 = exposed[(len(pcirc["links"]) * 3 + len(order)) % len(exposed)]
+            tgt = sol.pin_mapping[L.Pin(nm0)]
+            sol.map_pins({L.Pin("alias0"): tgt})
+            aliases.append(("alias0", nm0, c0))
         for nm, v in (setp or {}).items():
             sol.set_param(nm, float(v))         # a solver default that differs from the blocks' own defaults
     except Exception as e:  # noqa
@@ -144,6 +152,19 @@ def check(ctx, pcirc, order, link_order, assigns, replay, setp=None):
                 ctx.violation(sig, f"sub-solver {sorted(members)} and the original differ on its pins by {d:.3e} for parameters {sorted(kw)}; "
                               f"against an independent reference {who} (orig {eo:.2e}, sub {es:.2e})", replay)
                 return False
+    for (al, nm0, c0) in aliases:
+        owner = [sub for sub, members in zip(subs, got) if c0 in members][0]
+        try:
+            a_sub = owner.solve().get_A(al, nm0)
+            a_org = sol.solve().get_A(al, nm0)
+        except Exception as e:  # noqa
+            if impl.outcome_class(e) == "singular":
+                continue
+            ctx.violation("C12:alias-lost", f"pin {nm0} is also exposed as {al}: the sub-circuit that owns it raised {type(e).__name__} ({str(e)[:50]}) when asked for it", replay)
+            return False
+        if abs(a_sub - a_org) > 1e-9:
+            ctx.violation("C12:alias-lost", f"coefficient ({al},{nm0}) differs between the sub-circuit and the original", replay)
+            return False
     if sol.default_params != defaults_before:
         ctx.violation("C12:original-disturbed", f"solving the split solvers changed the original's default_params: {defaults_before} -> {sol.default_params}", replay)
         return False
